@@ -45,6 +45,7 @@ func c06GenReal(c *hmain.Ctx, cfgs []c06Cfg, bufs []int, randContent func(lines,
 	randCfg func() (int, bool, int)) {
 	r := c.R
 	c06InstallLsof(c)
+	c06LsofOracle(c)
 	c06Lz4Oracle(c)
 
 	// the start modes of a file whose content at the start is pre: reset, after-start, tail, not listed, every line end as
